@@ -42,9 +42,36 @@ CLAIM = dict(
     design_ref='8 C16')
 
 
+RECORD = {'gfx': 64, 'gff': 128, 'map': 128, 'sfx': 68, 'music': 4}
+
+
+def default_variants(rng, sec, version=8):
+    """regions derived from the library's own empty section (what a reader starts from before it applies the lines of
+    a file): the default itself; the default rotated by one record, so that every record holds the default of its
+    neighbour (sfx pattern 0 and patterns 1..63 have different defaults); the default with a few random records; the
+    all-zero region with one default record.  A reader that treats a line equal to 'the blank default' specially, or
+    that leaves the pre-set contents where it should store, shows here."""
+    base = bytes(_cls(sec).empty(version=version)._data)
+    r = RECORD[sec]
+    yield base
+    yield base[r:] + base[:r]
+    yield base[-r:] + base[:-r]
+    b = bytearray(base)
+    for _ in range(3):
+        k = rng.randrange(len(b) // r)
+        b[k * r:(k + 1) * r] = rng.randbytes(r)
+    yield bytes(b)
+    z = bytearray(len(base))
+    z[:r] = base[r:2 * r]
+    z[-r:] = base[:r]
+    yield bytes(z)
+
+
 def _patterns(rng, sec, tier):
     n = SIZE[sec]
     yield bytes(n)
+    for d in default_variants(rng, sec):
+        yield d
     yield b'\xff' * n
     yield bytes((i * 7 + 3) & 255 for i in range(n))
     for _ in range(3 if tier == 'quick' else 40):
